@@ -143,7 +143,8 @@ pub enum BlockSpec {
     FileSourceU8 { len: u32, repeat: u8 },
     FileSourceF32 { len: u32, repeat: u8 },
     /// SigMF source of rf32_le data; `archive`: tar archive instead of a recording pair
-    SigMFSourceF32 { len: u32, repeat: u8, archive: bool },
+    /// `opts`: bit 0 = builder option ignore_type_error(), bit 1 = builder option sample_rate()
+    SigMFSourceF32 { len: u32, repeat: u8, archive: bool, #[serde(default)] opts: u8 },
 }
 
 pub fn repeat_of(r: u8) -> rustradio::Repeat {
@@ -159,7 +160,7 @@ pub fn finite_source_strategy() -> BoxedStrategy<BlockSpec> {
         (len(), rep()).prop_map(|(len, repeat)| VectorSourceU8 { len, repeat }),
         (len(), rep()).prop_map(|(len, repeat)| FileSourceU8 { len, repeat }),
         (len(), rep()).prop_map(|(len, repeat)| FileSourceF32 { len: len / 2, repeat }),
-        (len(), rep(), any::<bool>()).prop_map(|(len, repeat, archive)| SigMFSourceF32 { len: len / 2, repeat, archive }),
+        (len(), rep(), any::<bool>(), 0u8..4).prop_map(|(len, repeat, archive, opts)| SigMFSourceF32 { len: len / 2, repeat, archive, opts }),
     ]
     .boxed()
 }
@@ -742,7 +743,7 @@ impl BlockSpec {
                            Built { scratch: None, sink_probe: None, name: nm, block: Box::new(blk), ins: vec![pa, pb], outs: outs!(x, y, z) } }
                     6 => one!(U32, |r| T11::new(r, k)),
                     7 => two!(U32, U32, |a, b| T21::new(a, b, k)),
-                    8 => one!(U32, |r| SDefInto::new(r, k)),
+                    8 => one!(U32, |r| SDefInto::new(r, k, k.wrapping_mul(3) ^ 0x55)),
                     _ => { let (p, r) = sin!(U32); let (b, x, pk) = N12::new(r, k);
                            Built { scratch: None, sink_probe: None, name: nm, block: Box::new(b), ins: vec![p], outs: vec![Box::new(SOut::new(x)), Box::new(POut::new(pk))] } }
                 }
@@ -766,7 +767,7 @@ impl BlockSpec {
                 b.repeat(repeat_of(repeat));
                 Built { scratch: Some(sc), sink_probe: None, name: "FileSource".into(), block: Box::new(b), ins: vec![], outs: vec![Box::new(SOut::new(o))] }
             }
-            SigMFSourceF32 { len, repeat, archive } => {
+            SigMFSourceF32 { len, repeat, archive, opts } => {
                 let sc = Scratch::new();
                 let bytes: Vec<u8> = f32_source_data(len).iter().flat_map(|x| x.to_le_bytes()).collect();
                 let path = if archive {
@@ -791,7 +792,14 @@ impl BlockSpec {
                     base
                 };
                 sss(out_size);
-                let (b, o) = SigMFSourceBuilder::<f32>::new(path).repeat(repeat_of(repeat)).build().expect("SigMFSource build");
+                let mut bld = SigMFSourceBuilder::<f32>::new(path).repeat(repeat_of(repeat));
+                if opts & 1 != 0 {
+                    bld = bld.ignore_type_error();
+                }
+                if opts & 2 != 0 {
+                    bld = bld.sample_rate(48000.0);
+                }
+                let (b, o) = bld.build().expect("SigMFSource build");
                 Built { scratch: Some(sc), sink_probe: None, name: "SigMFSource".into(), block: Box::new(b), ins: vec![], outs: vec![Box::new(SOut::new(o))] }
             }
             VectorSinkU8 { max } => {
